@@ -27,6 +27,7 @@ const (
 	hsServerKeyExchange = 12
 	hsCertificateReq    = 13
 	hsServerHelloDone   = 14
+	hsClientKeyExchange = 16
 )
 
 type hsMsg struct {
